@@ -33,6 +33,47 @@ CHECKS = {
         "text": "All 124 catalogue rows are enumerated (107 checkable: date/time, random and one undocumented row are listed as not checked); for Pandas, SQLite where the catalogue says 'y', the PostgreSQL dialect on the SQLite surrogate, and Polars eager (raising allowed) every cell gets generated argument frames with forced special classes (null, NaN/inf where documented, zero, negatives, domain boundaries, ties, empty string, all-null, single row) and is compared with a reference function per method; failures are collected per cell, never stop-at-first.",
         "note": "Trusted: the reference table vp/methods.py (numpy / docstring semantics; acceptable sets where the documentation leaves a choice), vp.cmp. Null operands are generated only where a docstring states a null rule; comparisons/logic/concat never get nulls (documented caveat). PostgreSQL cells run on the SQLite surrogate with the library's SQLite helper functions.",
     },
+    "C06": {
+        "technique": "differential property-based testing of the builder: chained construction vs step-by-step construction on materialised intermediate results, incl. acceptance equivalence",
+        "text": "Step lists of 2-7 unary steps over a table (new column names from a 2-name pool per type so consecutive extends overwrite and read each other's outputs; order_rows with and without limit; select/drop collapsing candidates), optionally ending in an injected ill-formed step or a join with check_all_common_keys_in_equi_spec=True, are built (a) chained, where the builder may merge extends, collapse selections and drop order_rows, and (b) step by step on fresh table descriptions of materialised results, where no simplification can fire. Results must be equal and both builders must accept/reject the same step.",
+        "note": "Trusted: the Pandas executor for both sides (same engine, so conventions cancel), vp.cmp. Evidence counts how often a simplification actually fired.",
+    },
+    "C07": {
+        "technique": "differential property-based testing of composition: five composition routes vs sequential application; associativity on triples; dom/cod predicates",
+        "text": "Triples (a, b, c) are generated so that b is built against a's output schema and c against b's; a >> b, b.act_on(a), b.replace_leaves, b.eval(map of pipelines) and DataOpArrow composition are each evaluated on Pandas and compared with b(a(data)); (a>>b)>>c and a>>(b>>c) are compared with c(b(a(data))); dom()/cod() must list the composed arrow's input and sorted output columns and transform() must return exactly the cod columns.",
+        "note": "Trusted: Pandas executor, vp.cmp, vp.schema (to generate b against a's output). Structural equality of differently grouped compositions is NOT demanded (the builder merges extends depending on grouping; the property promises equal behaviour).",
+    },
+    "C09": {
+        "technique": "model-based property testing with cardinality predicates and a reference aggregate per partition on Pandas, SQLite and Polars",
+        "text": "prefix program -> target (grouped project / ungrouped project / partitioned windowed extend with NULL-able keys) -> suffix that may overwrite or drop every aggregate; per engine the target's input is that engine's own evaluation of the prefix; grouped: rows == distinct key tuples (NULL its own group) and key multiset equal; ungrouped: exactly one row even on empty input and after overwriting; windowed: row count preserved and every row's value equals the reference aggregate over its partition.",
+        "note": "Trusted: vp.ref.agg, vp.cmp, each engine's evaluation of the prefix as the target's input.",
+    },
+    "C11": {
+        "technique": "metamorphic property-based testing: single-point spec mutations; every pair that compares equal is checked for identical SQL in five dialects and identical results",
+        "text": "Pairs (p, q) where q is p with one point mutation out of 22 kinds (literal value/type, operator, method, column reference, jointype, join keys, reverse, limit, partition_by/order_by, concat id/labels, record-map cell/key, list orders, table column list, targets) or an independent rebuild; == must be reflexive, symmetric and consistent with !=; whenever differing specs compare equal, to_sql must be identical for SQLite, PostgreSQL, BigQuery, Spark and MySQL and Pandas results identical on three data sets. A dedicated campaign mutates record maps.",
+        "note": "Trusted: the spec mutator in vp/checks/c11.py. Only the forward direction (equal => same behaviour) is required.",
+    },
+    "C12": {
+        "technique": "round-trip property testing: print (4 text forms) -> eval_da_ops -> ==, text fixpoint and identical Pandas result; pickle round trip",
+        "text": "Generated DAGs (text and Term-object expression construction) plus an enrichment extend with printing-sensitive forms ((-x)**2, (-3)**2, x**-1, nested unary minus, subtraction chains, string literals with quotes/backslashes/newlines/unicode in ==, %+%, is_in lists, mapv dicts) are printed by to_python (plain and black-formatted), repr and str; each text must evaluate back to an equal pipeline, print identically again and compute the same result; pickling likewise.",
+        "note": "Trusted: eval_da_ops as the documented reader, Pandas executor for the semantic half, vp.cmp.",
+    },
+    "C16": {
+        "engine": "sqlite-surrogate",
+        "technique": "differential property-based testing against a hand-written native SQL join on SQLite (cross-checked with a nested-loop reference) for five executors",
+        "text": "Two generated tables (0-6 rows, 0-2 key pairs with same or different names, key values from a 3-value pool plus NULL, shared non-key columns with NULLs, private columns) are joined inner/left/right/full/cross directly or through sub-pipelines; Pandas, Polars eager and lazy, SQLite-dialect SQL (emulated RIGHT/FULL) and PostgreSQL-dialect SQL on the surrogate must each return the rows of the native SQLite join and the declared columns. Engines inside the regions of two recorded SQLite FULL-join-emulation findings are skipped there and counted.",
+        "note": "Trusted: SQLite 3.40.1 native joins as 'the corresponding standard SQL join', vp.ref.natural_join (must agree with SQLite on every case, else harness error), vp.cmp.",
+    },
+    "C26": {
+        "technique": "labelled-by-construction property testing: exhaustive rule x prefix-tail x {violating, conforming} cells, Hypothesis inside each cell",
+        "text": "21 construction rules from the property text, each with a violating and a conforming step constructor, are applied on top of random prefixes forced to end in one of 8 tail kinds (incl. tails the builder simplifies away: order_rows without limit, select/drop columns, mergeable extends); a violating step must raise at build time, a conforming one must return a pipeline with the predicted column set. 'Unknown' columns prefer names removed earlier in the prefix. Failures are collected per cell.",
+        "note": "Trusted: the per-rule constructors and vp.schema's column prediction. Any exception type counts as a rejection. The method-call half of 'non-aggregating expression' is a recorded open finding (F65) and not generated while open.",
+    },
+    "C27": {
+        "technique": "model-based property testing: every window function evaluated per ordered partition by a naive reference and compared on Pandas, SQLite and Polars",
+        "text": "One generated table (NULL-able partition columns, 1-3 order columns made total by a unique id, any subset reversed) and one windowed extend with 1-3 functions from {cumsum, cummax, cummin, cumprod, _row_number, shift(+-k), rank, first, last, ffill, bfill} or {sum, mean, min, max, count, size, _size, median, nunique, std, var}; the reference sorts each partition in the declared order and evaluates the documented meaning; Pandas must match always, SQLite for catalogue-'y' functions, Polars whenever it returns.",
+        "note": "Trusted: vp.ref.window_values / vp.ref.agg, vp.cmp. Cumulative functions, rank, first, last get non-null arguments (NULL behaviour undocumented); cumcount is not generated (recorded finding F53).",
+    },
     "C08": {
         "engine": "sqlite-surrogate",
         "technique": "property-based testing with a validity predicate: returned column set (and order after select_columns) equals the declared columns on five executors",
